@@ -1,5 +1,6 @@
 import Driver.SpecProto
 import CdiModel.Codec
+import CdiModel.Validate
 open Lean Cdi Cdi.Codec
 namespace Driver.Codec
 open Driver.SpecProto
@@ -18,11 +19,18 @@ def handle : Handler := fun j => do
     let strs := specStrings s
     let riskJ := strs.any jsonUnsafe
     let riskY := strs.any yamlUnsafe
+    -- a Spec the library must refuse to write (model: not valid): every encoding reports "unwritable"
+    let libValid := Validate.validateSpec s == .ok true
     let mut judge : Option String := none
     let mut agree := true
     for enc in ["json", "yaml", "noext", "cachejson", "cacheyaml"] do
       let o ← (← obs.getObjVal? enc).getStr?
       if o == "skipped" then continue
+      if !libValid then
+        if o != "unwritable" then
+          agree := false
+          if judge.isNone then judge := some s!"invalid-spec-was-written-{enc}:{o}"
+        continue
       -- the model (value layer + codec law) predicts a faithful round trip for every typed Spec
       -- … except through the text codecs' two known classes of strings, where a failure may (need not) occur
       let risk := if enc == "json" || enc == "cachejson" then riskJ else riskY
